@@ -5,6 +5,7 @@ import (
 	"flag"
 	"fmt"
 	"os"
+	"path/filepath"
 	"runtime"
 	"sort"
 	"strings"
@@ -86,6 +87,7 @@ func load() *engine.World {
 		fmt.Fprintln(os.Stderr, "govc: load:", err)
 		os.Exit(2)
 	}
+	w.LoadLocalsLock(filepath.Join(verifDir(), "locals.lock"))
 	return w
 }
 
